@@ -488,7 +488,9 @@ POOL = {
     'hostile': ['<b>&"\'>', '"><inj a="1', '\'><inj a=\'1', ']]><x y="1">', '<![CDATA[<s>]]>', '--><!-- x',
                 '<script>alert(1)</script>', '&lt;&#60;&amp;amp;', '{{7*7}}${x}%(y)s%s', '\\', ' onx="1" ', '<' * 40,
                 'a' * 3000 + '<z>', '%00%3c%0d%0a', '\xe4\xf6\xfc\xdf\xa0<\xff>', '</ServiceException><x/>',
-                '<?xml version="1.0"?><!DOCTYPE x [<!ENTITY e SYSTEM "file:///etc/passwd">]><x>&e;</x>'],
+                '<?xml version="1.0"?><!DOCTYPE x [<!ENTITY e SYSTEM "file:///etc/passwd">]><x>&e;</x>',
+                # long and dense: whatever shortens or wraps a message must not cut through an escape sequence
+                '&<>"\'' * 400, ('x' * 97 + '&"<') * 30, '&' * 1500],
     # not latin-1
     'unicode': ['\u20ac<b>', '\u4e2d\u6587"\'>', '\U0001f600<x>', '\u202e<gnp.', '\u0100&\u017f', '\u2028\u2029<s>'],
     # control characters, line breaks, non-characters
